@@ -323,12 +323,33 @@ def drv_batch(objs, timeout=600):
 # ----------------------------------------------------------------------------------------------
 # parallel map
 
+ANCHORCOV_LINES = {}      # file -> set of executed lines reported by forked workers (only with VERIF_ANCHORCOV=1)
+
+
 def _pmap_worker(args):
     func, item = args
+    cov = None
+    if os.environ.get('VERIF_ANCHORCOV') == '1' and multiprocessing.current_process().name != 'MainProcess':
+        try:       # measurement only (tools/anchor_coverage.py): a worker reports the doit lines it executed
+            import coverage
+            sys.settrace(None)
+            cov = coverage.Coverage(data_file=None, config_file=False, concurrency=['thread'],
+                                    include=[os.path.join(REPO, 'doit', '*')])
+            cov.start()
+        except Exception:  # noqa
+            cov = None
     try:
-        return ('ok', func(item))
+        res = ('ok', func(item))
     except BaseException:  # noqa
-        return ('exc', traceback.format_exc())
+        res = ('exc', traceback.format_exc())
+    if cov is not None:
+        try:
+            cov.stop()
+            data = cov.get_data()
+            res = res + ({f: sorted(data.lines(f) or []) for f in data.measured_files()},)
+        except Exception:  # noqa
+            pass
+    return res
 
 
 def pmap(func, items, procs=None):
@@ -342,7 +363,11 @@ def pmap(func, items, procs=None):
         with ctx.Pool(procs) as pool:
             res = pool.map(_pmap_worker, [(func, it) for it in items], chunksize=1)
     out = []
-    for kind, val in res:
+    for r in res:
+        kind, val = r[0], r[1]
+        if len(r) > 2:
+            for f, ls in r[2].items():
+                ANCHORCOV_LINES.setdefault(f, set()).update(ls)
         if kind == 'exc':
             raise RuntimeError('worker failed:\n' + val)
         out.append(val)
